@@ -112,9 +112,10 @@ static void field_case(Rng &r) {
   dir.normalize();
   V3d pa((r.unit() - 0.5) * 10, (r.unit() - 0.5) * 10, (r.unit() - 0.5) * 10), pb = pa + R * dir;
   StaticSite A = make(r, ra, pa, false);
-  StaticSite B0 = make(r, std::max(rb, 1), pb, false);
+  // the polarisable site has any static rank, 0 included (its dipole row of the interaction is its field whatever the rank)
+  StaticSite B0 = make(r, rb, pb, false);
   PolarSite P(1, "C", pb);
-  P.setMultipole(B0.Q(), std::max(rb, 1));
+  P.setMultipole(B0.Q(), rb);
   P.setpolarization(M::Identity() * (0.5 + r.unit()));
   eeInteractor ee;
   StaticSegment sa("a", 0);
@@ -126,7 +127,7 @@ static void field_case(Rng &r) {
   // derivative of the pair energy in the three dipole components of the polarisable site (the energy is affine in them)
   V3d num;
   for (int c = 0; c < 3; c++) {
-    auto E = [&](double d) { StaticSite S = B0; Eigen::Matrix<double, 9, 1> Q = S.Q(); Q(1 + c) += d; S.setMultipole(Q, S.getRank()); return ee.CalcStaticEnergy_site(A, S); };
+    auto E = [&](double d) { StaticSite S = B0; Eigen::Matrix<double, 9, 1> Q = S.Q(); Q(1 + c) += d; S.setMultipole(Q, std::max<Index>(S.getRank(), 1)); return ee.CalcStaticEnergy_site(A, S); };   // a dipole is a rank-1 moment
     num[c] = (E(0.5) - E(-0.5));
   }
   printf("C15 field %d %d %s %s %s %s %s %s\n", ra, (int)B0.getRank(), v3(pa).c_str(), v3(pb).c_str(), q9(A).c_str(), q9(B0).c_str(), v3(field).c_str(), v3(num).c_str());
